@@ -48,7 +48,7 @@ InitWorld0 ==
                   ELSE [bal |-> [a \in AllAccts |-> StartBal(a, Token(t))], supply |-> 40, decimals |-> 1, minter |-> "", allow |-> {}]],
       pair |-> [a \in PairAddrs |->
                   LET p == PairDefs[CHOOSE i \in DOMAIN PairDefs : PairDefs[i].addr = a] IN
-                  [a0 |-> p.a0, a1 |-> p.a1, d0 |-> 1, d1 |-> 1, lp |-> p.lp, commission |-> COMMISSION, wl |-> {"lp1"}, m0 |-> 0, m1 |-> 0]],
+                  [a0 |-> p.a0, a1 |-> p.a1, d0 |-> 1, d1 |-> 1, lp |-> p.lp, self_lp |-> p.lp, commission |-> COMMISSION, wl |-> {"lp1"}, m0 |-> 0, m1 |-> 0]],
       fac  |-> [addr |-> FAC, owner |-> "own", pair_code |-> 2, token_code |-> 4, native |-> ("ua" :> 1 @@ "ub" :> 1),
                 reg |-> [i \in DOMAIN PairDefs |->
                            [key |-> <<i>>, a0 |-> PairDefs[i].a0, a1 |-> PairDefs[i].a1, pair |-> PairDefs[i].addr, lp |-> PairDefs[i].lp,
